@@ -2,6 +2,7 @@
 use crate::run::Builder;
 pub mod mutex;
 pub mod sem;
+pub mod park;
 pub mod scope;
 pub mod cqueue;
 pub mod condvar;
@@ -13,6 +14,7 @@ pub fn lookup(name: &str) -> Option<Builder> {
     match name {
         "mutex" => Some(mutex::build),
         "sem" => Some(sem::build),
+        "park" => Some(park::build),
         "scope" => Some(scope::build),
         "cqueue" => Some(cqueue::build),
         "condvar" => Some(condvar::build),
